@@ -21,6 +21,9 @@ type verifEnv13 struct {
 	srv  *httptest.Server
 	keys []string
 	ok   map[string]bool
+
+	cancelID string
+	cancelFn func()
 }
 
 func verifNewEnv13() *verifEnv13 {
@@ -50,6 +53,10 @@ func verifNewEnv13() *verifEnv13 {
 			return
 		}
 		id := strings.TrimSuffix(filepath.Base(r.URL.Path), ".txt")
+		if e.cancelID != "" && id == e.cancelID {
+			e.cancelFn()
+			return
+		}
 		if !e.ok[id] {
 			http.Error(w, "fail", http.StatusInternalServerError)
 			return
@@ -82,3 +89,4 @@ func (e *verifEnv13) attach(s *Default) {
 }
 func (e *verifEnv13) setIndex(k []string)            { e.keys = k }
 func (e *verifEnv13) setOutcomes(ok map[string]bool) { e.ok = ok }
+func (e *verifEnv13) setCancelAt(id string, cancel func()) { e.cancelID, e.cancelFn = id, cancel }
